@@ -72,6 +72,8 @@ def run(tier, seed, only=None):
     jobs = only if only is not None else (covering(rng, 2) if tier == "quick" else all_configs())
     for k, j in enumerate(jobs):
         j.setdefault("sched", SCHED[k % 3])
+        # head sections: written out explicitly, or left at the schema / builder-preset defaults (loss weights unset)
+        j.setdefault("heads", "default" if (k % 2 == 1 or (j["model"] == "bottomup" and k % 4 != 0)) else "explicit")
     obs = run_jobs(jobs, shim.REPO, seed, workers=14, timeout=900)
     bad = [o for o in obs if o.get("machinery")]
     if bad:
@@ -87,10 +89,11 @@ def run(tier, seed, only=None):
     res.clause("runs_with_wandb", sum(1 for o in obs if o["job"]["wandb"]))
     res.clause("runs_structured", sum(1 for o in obs if o["job"]["structured"]))
     res.clause("runs_low_memory_fallback", sum(1 for o in obs if o["job"].get("lowmem")))
+    res.clause("runs_with_default_head_sections", sum(1 for o in obs if o["job"].get("heads") == "default"))
     res.clause("runs_np_chunks", sum(1 for o in obs if o["job"]["fw"] != "torch_dataset"))
     res.coverage.update(evaluations=len(traces), distinct_nontrivial=len({str(sorted(o["job"].items())) for o in obs if len(o["states"]) >= 4}),
                         exhaustive=(tier == "thorough" and only is None),
-                        rule="configurations: pairwise-covering seeded subset of model x framework x wandb x ckpt x structured (quick) or all 64 (thorough), lr_scheduler rotated over {reduce_lr_on_plateau, none, step_lr}; each run observed at every write boundary; non-trivial = at least 4 observed disk states")
+                        rule="configurations: pairwise-covering seeded subset of model x framework x wandb x ckpt x structured (quick) or all 64 (thorough), lr_scheduler rotated over {reduce_lr_on_plateau, none, step_lr}; head sections explicit or at the schema / builder-preset defaults; each run observed at every write boundary; non-trivial = at least 4 observed disk states")
     res.sample(dict(job=obs[0]["job"], boundaries=[s["ev"] for s in obs[0]["states"]][:24], keyed=[s["keyed"] for s in obs[0]["states"]][:24]))
     res.assumptions += ["1 epoch / 1 step CPU runs on tests/assets/minimal_instance.pkg.slp; wandb in offline mode; litdata framework not covered",
                         "torch checkpoint files are written by C++ without an audit event and are observed at the next boundary",
